@@ -2,6 +2,6 @@
 # usage: seedtest.sh <seed-id> <prop> [<prop>...] — apply a seeded change to /repo, run the checks, undo
 seed=$1; shift
 cd /repo && git status --short | grep -q . && { echo "repo dirty"; exit 2; }
-git -C /repo apply /root/seed/out/$seed/patch.diff || { echo apply-failed; exit 2; }
+git -C /repo apply /verif/seeded/$seed/patch.diff || { echo apply-failed; exit 2; }
 for p in "$@"; do (cd /verif && ./check $p --tier quick 2>&1 | grep -E "VIOLATION|KNOWN|quick:|corr:|proof:" | cut -c1-300); done
 git -C /repo checkout -- . && (cd /verif/harness && cargo build --release -q 2>/dev/null; cargo build --release -q --no-default-features --features unicode --target-dir target-noalloc 2>/dev/null; cargo build --release -q --no-default-features --features alloc --target-dir target-nounicode 2>/dev/null)
